@@ -360,6 +360,22 @@ func childC12(a []string) string {
 			time.Sleep(time.Duration(r.Intn(40)) * time.Millisecond)
 		}
 		time.Sleep(100 * time.Millisecond)
+	case "deep-signature":
+		// a dynamic value whose signature is megabytes of brackets (a message may carry 10 MB): every object
+		// reads the argument of `property` as a value
+		c, err := w.rawConn()
+		if err != nil {
+			return "setup-error:" + err.Error()
+		}
+		go c12Drain(c, 3*time.Second)
+		n := 1200000 + r.Intn(800000)
+		sig := strings.Repeat([]string{"[", "{i"}[r.Intn(2)], n)
+		if r.Bool() {
+			sig += "i" + strings.Repeat(map[byte]string{'[': "]", '{': "}"}[sig[0]], n)
+		}
+		payload := append(svString(sig), 0, 0, 0, 0)
+		c12Frame(c, qnet.Call, uint32(2+r.Intn(2)), 1, 5, 100, payload)
+		time.Sleep(500 * time.Millisecond)
 	case "flood-not-reading":
 		// metaObject calls whose replies are never read
 		c, err := w.rawConn()
@@ -418,7 +434,7 @@ func runC12(r *Rand, tier string, o *Out) {
 	if tier == "thorough" {
 		per = 12
 	}
-	for _, sc := range []string{"valid", "subscriptions", "raw", "lengths", "flood-reading", "flood-posts", "terminate-busy", "disconnects"} {
+	for _, sc := range []string{"valid", "subscriptions", "raw", "lengths", "flood-reading", "flood-posts", "terminate-busy", "deep-signature", "disconnects"} {
 		for i := 0; i < per; i++ {
 			line := fmt.Sprintf("c12.run %s %d", sc, r.U64()>>1)
 			if out := o.Do("P", line, true); out != "ok" {
